@@ -120,3 +120,63 @@ def ensure_built(variant, quiet=True):
     finally:
         fcntl.flock(lock, fcntl.LOCK_UN)
         lock.close()
+
+
+# --------------------------------------------------------------------------------------------
+# Miri on foreign targets (the x86_64 asm! cannot be interpreted; i686 = 32-bit digits,
+# s390x = big-endian, aarch64 = 64-bit digits with the portable carry/divide fallbacks)
+
+MIRI_TARGETS = {'i686': 'i686-unknown-linux-gnu', 's390x': 's390x-unknown-linux-gnu', 'aarch64': 'aarch64-unknown-linux-gnu'}
+MIRI_FEATURES = 'std,rand,serde'
+_miri_ready = {}
+
+
+def miri_env(short):
+    env = dict(BASE_ENV)
+    env['MIRI_SYSROOT'] = os.path.join(VERIF, 'miri-sysroot', MIRI_TARGETS[short])
+    env['MIRIFLAGS'] = '-Zmiri-disable-isolation'
+    env['RUSTFLAGS'] = '--cfg num_bigint_verif'
+    return env
+
+
+def miri_argv(short):
+    t = MIRI_TARGETS[short]
+    return ['cargo', '+nightly', 'miri', 'run', '--offline', '--quiet', '--target', t, '--manifest-path', os.path.join(DRIVER, 'Cargo.toml'),
+            '--target-dir', os.path.join(DRIVER, 'target-miri-' + short), '--no-default-features', '--features', MIRI_FEATURES, '--']
+
+
+def ensure_miri(short, quiet=True):
+    """sysroot (built offline from rust-src) + a warm build of the driver for this target"""
+    if short in _miri_ready:
+        return
+    env = miri_env(short)
+    t0 = time.time()
+    tdir = os.path.join(DRIVER, 'target-miri-' + short)
+    os.makedirs(tdir, exist_ok=True)
+    lock = open(os.path.join(tdir, '.nbv-lock'), 'w')
+    fcntl.flock(lock, fcntl.LOCK_EX)
+    try:
+        if not os.path.isdir(os.path.join(env['MIRI_SYSROOT'], 'lib')):
+            p = subprocess.run(['cargo', '+nightly', 'miri', 'setup', '--target', MIRI_TARGETS[short]], env=env,
+                               stdout=subprocess.PIPE, stderr=subprocess.STDOUT, text=True)
+            if p.returncode != 0:
+                raise BuildError('miri-' + short, p.stdout)
+        th = tree_hash()
+        stamp = os.path.join(tdir, '.nbv-tree-hash')
+        old = open(stamp).read().strip() if os.path.exists(stamp) else ''
+        if old and old != th:
+            subprocess.run(['cargo', '+nightly', 'clean', '-p', 'num-bigint', '--offline', '--manifest-path', os.path.join(DRIVER, 'Cargo.toml'),
+                            '--target-dir', tdir, '--target', MIRI_TARGETS[short]], env=env, stdout=subprocess.DEVNULL, stderr=subprocess.DEVNULL)
+        empty = os.path.join(tdir, 'empty-script.txt')
+        open(empty, 'w').close()
+        p = subprocess.run(miri_argv(short) + [empty], env=env, stdout=subprocess.PIPE, stderr=subprocess.STDOUT, text=True)
+        if p.returncode != 0 or 'END 0' not in p.stdout:
+            raise BuildError('miri-' + short, p.stdout)
+        with open(stamp, 'w') as f:
+            f.write(th)
+        if not quiet:
+            print('[build] miri-%s ok in %.1fs' % (short, time.time() - t0), file=sys.stderr)
+        _miri_ready[short] = True
+    finally:
+        fcntl.flock(lock, fcntl.LOCK_UN)
+        lock.close()
